@@ -21,14 +21,14 @@ struct DynPorts : rtosc::Ports {
 };
 
 template <int L, int V> struct Node;
-template <int V> struct Node<2, V> { static PortsProxy ports; int tag = 0; };
-template <int L, int V> struct Node {
+struct NodeBase { bool en = true; int tag = 0; };
+template <int V> struct Node<2, V> : NodeBase { static PortsProxy ports; };
+template <int L, int V> struct Node : NodeBase {
   static PortsProxy ports;
   Node<L + 1, 0> one;
   Node<L + 1, 1> *ptr = nullptr;
   Node<L + 1, 2> many[4];
   Node<L + 1, 3> *manyp[4] = {nullptr, nullptr, nullptr, nullptr};
-  int tag = 0;
 };
 template <int L, int V> PortsProxy Node<L, V>::ports;
 template <int V> PortsProxy Node<2, V>::ports;
@@ -56,6 +56,12 @@ template <int L, int V> struct Cbs {
   static cb_t recurptr() { return rRecurPtrCb(one); }
 #undef rObject
 };
+struct LeafCbs {
+#define rObject NodeBase
+  static cb_t toggle() { return rToggleCb(en); }
+#undef rObject
+  static cb_t self() { return [](const char *, rtosc::RtData &d) { d.reply(d.loc, "b", sizeof(d.obj), &d.obj); }; }
+};
 enum Kind { LEAF = 0, RECUR = 1, RECURP = 2, RECURS = 3, RECURSP = 4 };
 inline cb_t recursion_cb(int table, int kind) {
 #define PT_CASE(L, V) switch (kind) { case RECUR: return Cbs<L, V>::recur(); case RECURP: return Cbs<L, V>::recurp(); case RECURS: return Cbs<L, V>::recurs(); default: return Cbs<L, V>::recursp(); }
@@ -74,7 +80,8 @@ struct PPort {
   std::string name;   // complete port name, e.g. "ab#3::i" or "c/"
   int kind = LEAF;
   std::string meta;   // metadata block (without the implicit final NUL)
-  template <class A> void io(A &a) { a(name)(kind)(meta); }
+  int role = 0;       // leaves: 0 recording leaf, 1 toggle (library rToggleCb on the object's 'en'), 2 rSelf-style port
+  template <class A> void io(A &a) { a(name)(kind)(meta)(role); }
   bool subtree() const { return kind != LEAF; }
 };
 struct PTable {
@@ -86,10 +93,14 @@ struct Tree {
   std::vector<PTable> tables;   // always 9 entries (unused ones empty)
   bool null_ptr[2] = {false, false};           // per level: is 'ptr' NULL
   unsigned null_manyp[2] = {0, 0};             // per level: bitmask of NULL manyp[i]
+  unsigned dis[3] = {0, 0, 0};                 // per level: bitmask of objects whose 'en' toggle is false (bit = slot, see slot())
   template <class A> void io(A &a) {
     a(tables);
     for (int l = 0; l < 2; l++) { a(null_ptr[l]); a(null_manyp[l]); }
+    for (int l = 0; l < 3; l++) a(dis[l]);
   }
+  // slot of a child object within its level: one=0, ptr=1, many[i]=2+i, manyp[i]=6+i (root: 0)
+  static int slot(int kind, int idx) { return kind == 1 ? 0 : kind == 2 ? 1 : kind == 3 ? 2 + (idx & 3) : 6 + (idx & 3); }
   std::string describe() const {
     std::string d;
     for (size_t t = 0; t < tables.size(); t++) {
@@ -98,7 +109,7 @@ struct Tree {
       for (auto &p : tables[t].ports) { d += "\"" + p.name + "\""; if (p.kind) d += std::string("~") + "?1psP"[p.kind]; d += " "; }
       d += "} ";
     }
-    d += "null_ptr=" + std::to_string(null_ptr[0]) + std::to_string(null_ptr[1]) + " null_manyp=" + std::to_string(null_manyp[0]) + "," + std::to_string(null_manyp[1]);
+    d += "dis=" + std::to_string(dis[0]) + "," + std::to_string(dis[1]) + "," + std::to_string(dis[2]) + " null_ptr=" + std::to_string(null_ptr[0]) + std::to_string(null_ptr[1]) + " null_manyp=" + std::to_string(null_manyp[0]) + "," + std::to_string(null_manyp[1]);
     return d;
   }
 };
@@ -117,6 +128,7 @@ struct Instance {
   std::vector<std::unique_ptr<DynPorts>> tabs;        // by table id (nullptr if unused)
   std::vector<std::vector<std::string>> metas;        // storage for metadata blocks
   std::vector<Seen> seen;
+  bool record = true;
   bool built_hashfail[9] = {false};
   // objects
   Node<0, 0> root;
@@ -125,15 +137,20 @@ struct Instance {
   std::vector<std::unique_ptr<Node<2, 1>>> p2;
   std::vector<std::unique_ptr<Node<2, 3>>> p2m;
 
+  bool en_of(int level, int kind, int idx) const { return !(tree.dis[level] & (1u << Tree::slot(kind, idx))); }
   template <int V> void wire2(Node<1, V> &n) {
-    if (!tree.null_ptr[1]) { p2.emplace_back(new Node<2, 1>()); n.ptr = p2.back().get(); }
-    for (int i = 0; i < 4; i++) if (!(tree.null_manyp[1] & (1u << i))) { p2m.emplace_back(new Node<2, 3>()); n.manyp[i] = p2m.back().get(); }
+    if (!tree.null_ptr[1]) { p2.emplace_back(new Node<2, 1>()); n.ptr = p2.back().get(); n.ptr->en = en_of(2, RECURP, 0); }
+    for (int i = 0; i < 4; i++) if (!(tree.null_manyp[1] & (1u << i))) { p2m.emplace_back(new Node<2, 3>()); n.manyp[i] = p2m.back().get(); n.manyp[i]->en = en_of(2, RECURSP, i); }
+    n.one.en = en_of(2, RECUR, 0);
+    for (int i = 0; i < 4; i++) n.many[i].en = en_of(2, RECURS, i);
   }
   void wire() {
-    if (!tree.null_ptr[0]) { p1.emplace_back(new Node<1, 1>()); root.ptr = p1.back().get(); wire2(*root.ptr); }
-    for (int i = 0; i < 4; i++) if (!(tree.null_manyp[0] & (1u << i))) { p1m.emplace_back(new Node<1, 3>()); root.manyp[i] = p1m.back().get(); wire2(*root.manyp[i]); }
+    root.en = !(tree.dis[0] & 1u);
+    if (!tree.null_ptr[0]) { p1.emplace_back(new Node<1, 1>()); root.ptr = p1.back().get(); root.ptr->en = en_of(1, RECURP, 0); wire2(*root.ptr); }
+    for (int i = 0; i < 4; i++) if (!(tree.null_manyp[0] & (1u << i))) { p1m.emplace_back(new Node<1, 3>()); root.manyp[i] = p1m.back().get(); root.manyp[i]->en = en_of(1, RECURSP, i); wire2(*root.manyp[i]); }
+    root.one.en = en_of(1, RECUR, 0);
     wire2(root.one);
-    for (int i = 0; i < 4; i++) wire2(root.many[i]);
+    for (int i = 0; i < 4; i++) { root.many[i].en = en_of(1, RECURS, i); wire2(root.many[i]); }
   }
 
   explicit Instance(const Tree &t, const std::function<cb_t(int, int)> &leafcb = nullptr) : tree(t) {
@@ -163,10 +180,12 @@ struct Instance {
         } else {
           p.ports = nullptr;
           int ii = (int)i;
-          p.cb = leafcb ? leafcb(id, ii) : cb_t([this, id, ii](const char *, rtosc::RtData &d) {
+          cb_t inner = pp.role == 1 ? LeafCbs::toggle() : pp.role == 2 ? LeafCbs::self() : cb_t();
+          p.cb = leafcb ? leafcb(id, ii) : cb_t([this, id, ii, inner](const char *m, rtosc::RtData &d) {
             Seen s; s.table = id; s.port = ii; s.obj = d.obj; s.dport = d.port; s.idx0 = d.idx[0];
             if (d.loc) { s.loc = d.loc; s.has_loc = true; }
-            seen.push_back(s);
+            if (record) seen.push_back(s);
+            if (inner) inner(m, d);
           });
         }
         v.push_back(p);
@@ -184,7 +203,7 @@ struct Instance {
       if (pt_.default_handler)
         tabs[(size_t)id]->default_handler = [this, id](const char *, rtosc::RtData &d) {
           Seen s; s.table = id; s.port = -1; s.obj = d.obj; if (d.loc) { s.loc = d.loc; s.has_loc = true; }
-          seen.push_back(s);
+          if (record) seen.push_back(s);
         };
       proxy(id).p = tabs[(size_t)id].get();
     }
@@ -236,6 +255,71 @@ struct Instance {
         if (!co) continue;  // NULL pointer sub-tree: nothing below is reachable
         int child = table_id(table_level(table) + 1, pp.kind - 1);
         expect(child, co, rest.substr(s + 1), tags, loc + comp + "/", out, unspecified);
+      }
+    }
+  }
+
+  // ---- reference enumeration of a walk
+  struct Report { int table, port; std::string addr; bool optional = false; };
+  static std::string meta_get(const std::string &meta, const std::string &key) {
+    // entries ":key\0[=value\0]"
+    size_t i = 0;
+    while (i < meta.size()) {
+      if (meta[i] != ':') break;
+      size_t e = meta.find('\0', i);
+      if (e == std::string::npos) e = meta.size();
+      std::string k = meta.substr(i + 1, e - i - 1);
+      std::string v;
+      size_t n = e + 1;
+      if (n < meta.size() && meta[n] == '=') { size_t e2 = meta.find('\0', n); if (e2 == std::string::npos) e2 = meta.size(); v = meta.substr(n + 1, e2 - n - 1); n = e2 + 1; }
+      if (k == key) return v;
+      i = n;
+    }
+    return "";
+  }
+  // all concrete spellings of a port name's path part (each '#N' of the *first* enumeration expanded; leaves with
+  // two '#' are known upstream not to expand and are not generated)
+  static std::vector<std::pair<std::string, int>> expansions(const std::string &name) {
+    std::string path = name.substr(0, name.find(':'));
+    std::vector<std::pair<std::string, int>> out;
+    size_t h = path.find('#');
+    if (h == std::string::npos) { out.push_back({path, 0}); return out; }
+    size_t e = h + 1;
+    while (e < path.size() && isdigit((unsigned char)path[e])) e++;
+    int n = atoi(path.c_str() + h + 1);
+    for (int i = 0; i < n; i++) out.push_back({path.substr(0, h) + std::to_string(i) + path.substr(e), i});
+    return out;
+  }
+  void model_walk(int table, void *obj, bool runtime, const std::string &prefix, std::vector<Report> &out) const {
+    const PTable &t = tree.tables[(size_t)table];
+    if (runtime) {
+      // rSelf(..., rEnabledBy(toggle)) in this table: the whole table is skipped when the toggle is false
+      for (size_t i = 0; i < t.ports.size(); i++)
+        if (t.ports[i].name == "self:") {
+          std::string en = meta_get(t.ports[i].meta, "enabled by");
+          if (!en.empty() && !((NodeBase *)obj)->en) {
+            for (size_t k = 0; k < t.ports.size(); k++)
+              if (t.ports[k].name.substr(0, t.ports[k].name.find(':')) == en) { out.push_back({table, (int)k, prefix + en, true}); break; }
+            return;
+          }
+          break;  // operator[] finds the first "self:" port
+        }
+    }
+    for (size_t i = 0; i < t.ports.size(); i++) {
+      const PPort &pp = t.ports[i];
+      if (!pp.subtree() || table_level(table) >= 2) {
+        for (auto &ex : expansions(pp.name)) out.push_back({table, (int)i, prefix + ex.first, false});
+        continue;
+      }
+      int child = table_id(table_level(table) + 1, pp.kind - 1);
+      for (auto &ex : expansions(pp.name)) {
+        void *co = nullptr;
+        if (runtime) {
+          co = child_obj(table, obj, pp.kind, ex.second);
+          if (!co) continue;
+          if (!meta_get(pp.meta, "enabled by").empty() && !((NodeBase *)obj)->en) continue;
+        }
+        model_walk(child, co, runtime, prefix + ex.first, out);
       }
     }
   }
@@ -301,6 +385,32 @@ inline Tree gen_tree(int maxports = 24) {
   t.null_manyp[0] = vf::chance(40) ? (unsigned)vf::pickn(16) : 0;
   t.null_manyp[1] = vf::chance(40) ? (unsigned)vf::pickn(16) : 0;
   return t;
+}
+
+// add the two documented 'enabled by' forms to a tree: rRecur(sub, rEnabledBy(toggle)) with the toggle as sibling,
+// and rSelf(type, rEnabledBy(toggle)) inside the sub-tree's table
+inline void decorate_enabled(Tree &t) {
+  for (int id = 0; id < 9; id++) {
+    PTable &tb = t.tables[(size_t)id];
+    if (tb.ports.empty()) continue;
+    bool has_sub = false;
+    for (auto &p : tb.ports) if (p.subtree() && table_level(id) < 2) has_sub = true;
+    if (has_sub && vf::chance(50)) {   // sibling toggle
+      PPort tg; tg.name = "en" + std::string(1, "xyz"[vf::pickn(3)]) + "::T:F"; tg.role = 1;
+      std::string tn = tg.name.substr(0, tg.name.find(':'));
+      tb.ports.insert(tb.ports.begin() + vf::pickn((int)tb.ports.size() + 1), tg);
+      for (auto &p : tb.ports) if (p.subtree() && vf::chance(60)) p.meta += ":enabled by" + std::string(1, '\0') + "=" + tn + std::string(1, '\0');
+    }
+    if (id != 0 && vf::chance(35)) {   // self-disabling table
+      PPort tg; tg.name = "on::T:F"; tg.role = 1;
+      PPort self; self.name = "self:"; self.role = 2;
+      self.meta = ":internal" + std::string(1, '\0') + ":enabled by" + std::string(1, '\0') + "=on" + std::string(1, '\0');
+      tb.ports.insert(tb.ports.begin() + vf::pickn((int)tb.ports.size() + 1), tg);
+      tb.ports.insert(tb.ports.begin() + vf::pickn((int)tb.ports.size() + 1), self);
+    }
+  }
+  for (int l = 0; l < 3; l++) t.dis[l] = vf::chance(60) ? (unsigned)vf::pickn(1024) & (unsigned)vf::pickn(1024) : 0;
+  if (vf::chance(30)) t.dis[0] |= 1;
 }
 
 // concrete address accepted by a port name (choices through vf::pickn); index may be forced out of range
